@@ -83,6 +83,7 @@ def work_def(args):
         res['stats'] = st
     except OverBudget as e:
         res['over_budget'] = True
+        res['over_budget_reason'] = str(e)[:200]
         res['inconclusive'] = None
     except Inconclusive as e:
         res['inconclusive'] = str(e)[:1500]
@@ -332,6 +333,8 @@ def run_lex(rep, prop, extra_coverage=None, budget_override=None):
                     unobservable.append('%s: %s' % (d.name, mm['what']))
                 else:
                     rep.inconc('%s: solver counterexample (%s) did not reproduce natively: %s' % (d.name, mm['what'], detail))
+        if len(over) > 0.4 * max(1, len(defs)):
+            rep.inconc('%d of %d definitions were not decided within their time budget (machine overloaded?)' % (len(over), len(defs)))
         not_expanded = {defs[i].name: e for i, e in crate.errors.items()}
         for i, e in crate.errors.items():
             d = defs[i]
